@@ -64,9 +64,17 @@ extern "C" fn on_crash(sig: libc::c_int) {
     for c in ctx {
         put_num(&mut buf, &mut pos, c);
     }
+    if pos < buf.len() {
+        buf[pos] = b'\n';
+        pos += 1;
+    }
     unsafe {
         if !CRASH_PATH.is_null() {
-            let fd = libc::open(CRASH_PATH, libc::O_WRONLY | libc::O_CREAT | libc::O_TRUNC, 0o644);
+            // several threads may crash at once: append one complete record per thread with a
+            // single write(2) (the parent removes the file before it starts the child and reads
+            // the first complete line); truncating here could leave an empty file when another
+            // thread's _exit wins the race
+            let fd = libc::open(CRASH_PATH, libc::O_WRONLY | libc::O_CREAT | libc::O_APPEND, 0o644);
             if fd >= 0 {
                 libc::write(fd, buf.as_ptr() as *const _, pos);
                 libc::close(fd);
@@ -130,11 +138,13 @@ pub fn spawn_child(args: &[String], crash_file: &str, quiet: bool) -> ChildEnd {
     let rec = std::fs::read_to_string(crash_file).ok();
     let _ = std::fs::remove_file(crash_file);
     let parse = |rec: Option<String>| -> (i32, u64, [u64; 4]) {
-        let nums: Vec<u64> = rec
-            .unwrap_or_default()
-            .split_whitespace()
-            .filter_map(|x| x.parse().ok())
-            .collect();
+        // first complete record (one line of six numbers)
+        let text = rec.unwrap_or_default();
+        let nums: Vec<u64> = text
+            .lines()
+            .map(|l| l.split_whitespace().filter_map(|x| x.parse().ok()).collect::<Vec<u64>>())
+            .find(|v| v.len() >= 6)
+            .unwrap_or_default();
         if nums.len() >= 6 {
             (nums[0] as i32, nums[1], [nums[2], nums[3], nums[4], nums[5]])
         } else {
